@@ -127,8 +127,20 @@ def gen_lookup(cls, rng, count):
         n = rng.randint(1, 5)
         keys = rng.sample(range(1, 40), n)
         steps = ["onew %d %d %d" % (i, keys[i], 100 + i) for i in range(n)]
-        shape = rng.choice(["ring", "ring", "two-cycles", "self-loops", "random", "hubs", "hubs"])
-        if shape == "hubs":
+        shape = rng.choice(["ring", "ring", "two-cycles", "self-loops", "random", "hubs", "hubs", "bighub"])
+        lookups = None
+        if shape == "bighub":
+            # one node with 33-70 adjacency entries (parallel edges to a few neighbours) and ONE neighbour that is only found
+            # deep in that list (connected last; for the undirected flavours also as an inbound half): lookups that have to
+            # walk dozens of entries must not leave the hub owning itself or the neighbour
+            n = max(n, 3)
+            keys = rng.sample(range(1, 40), n)
+            steps = ["onew %d %d %d" % (i, keys[i], 100 + i) for i in range(n)]
+            edges = [(0, rng.randrange(1, n - 1)) for _ in range(rng.choice([33, 34, 40, 64, 65, 70]))]
+            late = (0, n - 1) if rng.random() < 0.5 else (n - 1, 0)
+            edges.append(late)
+            lookups = [(0, n - 1), (0, n - 1), (n - 1, 0), (0, 1)] + [(0, rng.randrange(n)) for _ in range(3)]
+        elif shape == "hubs":
             # nodes with many (9-14) outbound edges, parallel edges and self-loops included, pointing at each other
             n = max(n, 2)
             keys = rng.sample(range(1, 40), n)
@@ -150,7 +162,7 @@ def gen_lookup(cls, rng, count):
         if rng.random() < 0.4:
             steps += ["ogra %d" % GRAPH_SLOT] + ["ogins %d %d" % (GRAPH_SLOT, i) for i in range(n) if rng.random() < 0.8]
         for rnd in range(rng.randint(1, 3)):
-            order = list(edges)
+            order = list(lookups if lookups is not None else edges)
             rng.shuffle(order)
             for (a, b) in order:
                 r = rng.random()
